@@ -203,7 +203,8 @@ R"(
     SBEPP_CPP20_CONSTEXPR std::size_t operator()(
         ::sbepp::detail::size_bytes_tag) const noexcept
     {{
-        return {header_size} + (*this)(::sbepp::detail::get_block_length_tag{{}});
+        return static_cast<std::size_t>({header_size})
+            + (*this)(::sbepp::detail::get_block_length_tag{{}});
     }}
 )",
                 // clang-format on
